@@ -158,6 +158,18 @@ def make_data(n, seed, kind='noise'):
         y = y + 1e3
     elif kind == 'small':
         y = y * 1e-3
+    elif kind.startswith('off'):          # large positive offsets relative to the noise (sigma 0.5): off1e6, off1e8, off1e10
+        y = y + float(kind[3:])
+    elif kind.startswith('neg'):          # large negative offset
+        y = y - float(kind[3:])
+    elif kind == 'tiny':
+        y = y * 1e-8
+    elif kind == 'huge':
+        y = y * 1e8
+    elif kind == 'integer':
+        y = np.round(y * 10)
+    elif kind == 'intoff':                # integer-valued counts on a large pedestal
+        y = np.round(y * 10) + 4e7
     return x, y
 
 
